@@ -216,7 +216,7 @@ def check(prop, tier, seed):
             byid = {c["id"]: c for c in cases}
             pyfail = []
             for (cid, ln), ppay in py.items():
-                why = diff.compare_python(ppay, impl.get((cid, ln)), byid[cid]["lines"][ln - 1])
+                why = diff.compare_python(ppay, impl.get((cid, ln)), byid[cid]["lines"][ln - 1], model.get((cid, ln)))
                 if why and not known_for_line(prop, byid[cid], ln, load_known()): pyfail.append((cid, ln, why))
             missing_lines = [k for k in impl if k not in py]
             methods = common.python_methods()
